@@ -68,6 +68,60 @@ def checkC12 (toks : List String) (res : String) : Option Verdict :=
       | .ok v => showNum (L, (convert a v).2)
       | _ => "UB"
     some { model := m, spec := some (want == res), branch := "asg/" ++ toks[1]! ++ (if want == "UB" then "/ub" else ""), nontrivial := want != "UB" }
+  | ["inc", kind, tl, l] => do
+    let L ← parseTy tl; let l ← l.toInt?
+    let a ← innerTy L
+    let isInc := kind == "pre+" || kind == "post+"
+    let isPre := kind == "pre+" || kind == "pre-"
+    let op : BinOp := if isInc then .add else .sub
+    -- model: `x op= 1` on the wrapper, the expression returns the new (prefix) or old (postfix) value
+    let m : Res (Num × Num) := do
+      let n ← Layered.compound op (L, l) (.int i32, 1)
+      pure (n, if isPre then n else (L, l))
+    let showPair (p : Num × Num) : String := showNum p.1 ++ "|" ++ showNum p.2
+    -- spec: adding / subtracting one on the bare integer, converted back to its type
+    let want : String := match cBin op (a, l) (i32, 1) with
+      | .ok v => let nv := (convert a v).2
+                 showNum (L, nv) ++ "|" ++ showNum (L, if isPre then nv else l)
+      | _ => "UB"
+    some { model := showRes showPair m, spec := some (want == res), branch := "inc/" ++ kind ++ (if want == "UB" then "/ub" else ""), nontrivial := want != "UB" }
+  | ["kernel", name, tt, wt, e1, e2, l, r] => do
+    let T ← parseIntTy tt; let W ← parseIntTy wt; let e1 ← e1.toInt?; let e2 ← e2.toInt?; let l ← l.toInt?; let r ← r.toInt?
+    let a : Num := (.sc (.int T) e1 2, l); let a2 : Num := (.sc (.int T) e1 2, r); let b : Num := (.sc (.int T) e2 2, r)
+    let WA : Ty := .sc (.int W) e1 2
+    let cnl : Res Num := match name with
+      | "mulwiden" => do let wa ← Layered.cast WA a; Layered.bin .mul wa a2
+      | "mixadd" => Layered.bin .add a b
+      | "average" => do
+          let wa ← Layered.cast WA a
+          let s ← Layered.bin .add wa a2
+          -- `>> constant<1>`: same representation, exponent one lower
+          match s.1 with
+          | .sc rr e x => pure (.sc rr (e - 1) x, s.2)
+          | _ => .ill "unexpected"
+      | "square" => do let wa ← Layered.cast WA a; Layered.bin .mul wa wa
+      | _ => .ill "unknown kernel"
+    -- the hand-written shift-and-operate code on bare integers
+    let hand : Res TV := match name with
+      | "mulwiden" => cBin .mul (convert W (T, l)) (T, r)
+      | "mixadd" =>
+        if e1 ≤ e2 then do let p ← cBin .shl (T, 1) (i32, e2 - e1); let q ← cBin .mul (T, r) (convert T p); cBin .add (T, l) q
+        else do let p ← cBin .shl (T, 1) (i32, e1 - e2); let q ← cBin .mul (T, l) (convert T p); cBin .add q (T, r)
+      | "average" => cBin .add (convert W (T, l)) (T, r)
+      | "square" => cBin .mul (convert W (T, l)) (convert W (T, l))
+      | _ => .ill "unknown kernel"
+    let model : String := match cnl with
+      | .ok v => showNum v ++ "|" ++ showRes showTV hand
+      | o => showRes showNum o
+    -- spec: the CNL expression and the hand-written code agree in value and representation type
+    let spec : Option Bool :=
+      match res.splitOn "|" with
+      | [c, h] =>
+        (match c.splitOn ":", h.splitOn ":" with
+         | [ct, cv], [ht, hv] => some (cv == hv && (parseTy ct).bind innerTy == parseIntTy ht)
+         | _, _ => if h == "UB" then none else some false)
+      | _ => if res == "UB" then (match hand with | .ok _ => some false | _ => some true) else some false
+    some { model := model, spec := spec, branch := "kernel/" ++ name, nontrivial := true }
   | _ => none
 
 end Cnl.Drv
